@@ -5,6 +5,8 @@ from mc import core, det, vnet, fe
 PROPERTY = 'C12'
 ENGINE = 'E3 stateless exploration of ALL delivery/timer schedules of 2 (deviation-bounded: 3) scripted raw connections against the real handler, ServicesManager and websockets on the virtual network'
 LEVEL = 'model_checking'
+DIRECTED_ADDITIONS = 'distinct request paths, pending-cleanup variants, hold / give-up / take-over triples (up to four connections per sid)'      # members added during the seeded-change campaign (DESIGN 7); counted under their own vacuity counters
+
 SCRIPTS = {'C': ['config'], 'CU': ['config', 'upload'], 'U': ['upload'], 'S': ['search'], 'CUS': ['config', 'upload', 'search'], 'X': []}
 # scripts used only in the triples below: 'hold' keeps the connection open until nothing else can happen (a client that is slow to
 # leave); 'giveup' closes as soon as the server's wait notice arrives, i.e. WHILE waiting for the earlier connection
@@ -23,6 +25,12 @@ LIMIT3 = {'quick': 1500, 'thorough': 60000}
 
 
 def describe(tier):
+    d = _describe(tier)
+    d['rule'] = d['rule'] + ' Directed additions: ' + DIRECTED_ADDITIONS + '.'
+    return d
+
+
+def _describe(tier):
     return {
         'rule': 'execution = (initial durable state s0 in {0,1,2} prepared by a sequential prefix, k scripted raw connections on one sid, schedule); '
                 'scripts from {[config],[config,upload],[upload],[search],[config,upload,search],[] (open, then close without a request)} each ending in close (the triple-hold units add: hold = stay open until nothing else can happen; giveup = close on the wait notice, i.e. while waiting), every connection with its own '
